@@ -6,7 +6,9 @@ It should not be considered part of the public API.
 
 from __future__ import annotations
 
+import collections.abc
 import logging
+import types
 from argparse import (
     SUPPRESS,
     Action,
@@ -25,17 +27,27 @@ from typing import (
     Dict,
     IO,
     Iterable,
+    List,
     NoReturn,
     Protocol,
     Set,
     Type,
     TypeVar,
+    Union,
     cast,
+    get_type_hints,
     overload,
 )
-from typing_extensions import Unpack  # noqa: TCH002
+from typing_extensions import (
+    ParamSpecArgs,
+    ParamSpecKwargs,
+    Unpack,  # noqa: TCH002
+    get_args,
+    get_origin,
+)
 
 from ..exceptions import HelpRequested, ParserError, SubParsersNotInitialized
+from ..internals import types as _types
 from ..internals.constants import CMD
 from ..internals.helpers import get_first_doc_line, resolve_dotted_path
 from ..internals.types import (
@@ -242,7 +254,7 @@ class ControlParser(ArgumentParser):
         subparser_kwargs.setdefault("description", subparser_kwargs["help"])
         subparser = self._commands.add_parser(**subparser_kwargs)
         if prop.fset is not None:
-            _, param = signature(prop.fset).parameters.values()
+            _, param = _get_parameters(prop.fset)
             setter_arg_help = (
                 f"If provided: {get_first_doc_line(prop.fset)} "
                 f"If omitted: {getter_help}"
@@ -403,13 +415,33 @@ class ControlParser(ArgumentParser):
             omit (optional):
                 Names of function parameters not to add as parser arguments.
         """
-        for param in signature(function).parameters.values():
+        for param in _get_parameters(function):
             if param.name not in omit:
                 # TODO: Look into parsing docstrings properly to try and extract
                 #       argument help text. For now, the argument help just
                 #       shows the type it will be converted to.
                 # https://github.com/daniil-berg/asyncio-taskpool/issues/3
                 self.add_function_arg(param, help=repr(param.annotation))
+
+
+def _get_parameters(function: Callable[..., Any]) -> List[Parameter]:
+    """
+    Returns the parameters of `function` with their annotations resolved.
+
+    With postponed evaluation of annotations (PEP 563) the annotations in the
+    signature of a function are mere strings. They are evaluated here in the
+    namespace of the function's module; names that are only imported for type
+    checking there are looked up in the `internals.types` module.
+    If that is not possible, the annotations are left as they are.
+    """
+    try:
+        hints = get_type_hints(function, localns=vars(_types))
+    except Exception:
+        hints = {}
+    return [
+        param.replace(annotation=hints.get(param.name, param.annotation))
+        for param in signature(function).parameters.values()
+    ]
 
 
 def _get_arg_type_wrapper(cls: Type[Any]) -> Callable[[Any], Any]:
@@ -465,6 +497,19 @@ def _get_type_from_annotation(annotation: Any) -> Callable[[Any], Any]:
         annotation is t
         for t in (ArgsT, KwArgsT, Iterable[ArgsT], Iterable[KwArgsT])
     ):
+        annotation = literal_eval
+    # The same for equivalent (e.g. parametrized or optional) annotations:
+    if get_origin(annotation) in (Union, getattr(types, "UnionType", Union)):
+        not_none = [a for a in get_args(annotation) if a is not type(None)]
+        if len(not_none) == 1:
+            annotation = not_none[0]
+    origin = get_origin(annotation)
+    if origin is collections.abc.Callable:
+        annotation = resolve_dotted_path
+    elif origin in (
+        collections.abc.Iterable,
+        collections.abc.Mapping,
+    ) or isinstance(annotation, (ParamSpecArgs, ParamSpecKwargs)):
         annotation = literal_eval
     return _get_arg_type_wrapper(annotation)
 
